@@ -11,14 +11,20 @@ def sh(cmd, cwd=None, env=None):
     p = subprocess.run(cmd, cwd=cwd, env=e, capture_output=True, text=True)
     return p.returncode, p.stdout + p.stderr
 
+import threading
+GITLOCK = threading.Lock()
+
 def one(sid):
     wt = f"/tmp/mx_{sid}"
     out = f"/tmp/mx_{sid}_out"
-    sh(["git", "-C", "/repo", "worktree", "remove", "--force", wt])
     shutil.rmtree(out, ignore_errors=True)
     os.makedirs(out, exist_ok=True)
     res = {}
-    rc, log = sh(["git", "-C", "/repo", "worktree", "add", "-q", "--detach", wt, "HEAD"])
+    with GITLOCK:
+        sh(["git", "-C", "/repo", "worktree", "remove", "--force", wt])
+        rc, log = sh(["git", "-C", "/repo", "worktree", "add", "-q", "--detach", wt, "HEAD"])
+    if rc != 0 or not os.path.isdir(wt):
+        return sid, {"error": "worktree add failed: " + log[-300:]}
     try:
         if sid != "BASE":
             rc, log = sh(["git", "apply", os.path.join(V, "seeded", sid, "patch.diff")], cwd=wt)
@@ -33,8 +39,17 @@ def one(sid):
             if v:
                 kind = "no-failing-input-found" if v[0].endswith("no-failing-input-found") else "failing-input"
             res[pid] = dict(rc=rc, kind=kind, summary=(summ[-1] if summ else log[-200:]))
+            if v and kind != "failing-input":
+                try:
+                    rp = json.load(open(v[0].split("replay=")[1].split()[0]))
+                    res[pid]["why"] = dict(broken=rp.get("broken_obligations"), family=rp.get("disagreeing_family"),
+                                           cmd=(rp.get("script") or ["?"])[rp.get("line") or 0][:80] if rp.get("script") else None,
+                                           impl=str(rp.get("impl"))[:60], model=str(rp.get("model"))[:60], notes=str(rp.get("notes"))[:300])
+                except Exception as e:
+                    res[pid]["why"] = repr(e)
     finally:
-        sh(["git", "-C", "/repo", "worktree", "remove", "--force", wt])
+        with GITLOCK:
+            sh(["git", "-C", "/repo", "worktree", "remove", "--force", wt])
         shutil.rmtree(out, ignore_errors=True)
     return sid, res
 
